@@ -106,7 +106,9 @@ PATHTY == "path"
 InstExpect ==      \* [dom, ty, val] for the blob
   LET b == T.blob  w == T.what IN
   CASE w = "ip" -> LET ps == SplitAt(b, DOT) IN
-         [dom |-> CanonicalQuad(b) /\ ~(\A i \in 1..4 : DecVal(ps[i]) = 0) /\ DecVal(ps[4]) \notin {0, 255}, tys |-> {"network.ip"}, val |-> b]
+         [dom |-> CanonicalQuad(b) /\ ~(\A i \in 1..4 : DecVal(ps[i]) = 0) /\ DecVal(ps[4]) \notin {0, 255}
+                  /\ IpLeftBoundary(T.pre) /\ ~IpContextSuppressed(T.pre),          \* documented section / version number contexts (Net.tla)
+          tys |-> {"network.ip"}, val |-> b]
     [] w = "domain" -> [dom |-> FreeDomain(b) /\ b[1] # DOT /\ ~(\E i \in 1..(Len(b) - 1) : b[i] = DOT /\ b[i+1] = DOT) /\ T.neutral
                                 /\ ~IsFalsePositive(b),          \* the documented false-positive shapes, rule for rule (Net.tla)
                         tys |-> {"network.domain"}, val |-> b]
@@ -122,6 +124,9 @@ InstClauses ==
   LET x == InstExpect  a == Len(T.pre)  b == a + Len(T.blob) IN
   IF ~x.dom THEN {"n/a"} \cup (IF T.what = "domain" /\ FreeDomain(T.blob) /\ IsFalsePositive(T.blob)
                                    /\ \E i \in 1..Len(T.found) : T.found[i].ty = "network.domain" /\ T.found[i].s = a /\ T.found[i].e = b
+                                THEN {"note.falsepositive.reported"} ELSE {})
+                          \cup (IF T.what = "ip" /\ CanonicalQuad(T.blob) /\ IpLeftBoundary(T.pre) /\ IpContextSuppressed(T.pre)
+                                   /\ \E i \in 1..Len(T.found) : T.found[i].ty = "network.ip" /\ T.found[i].s = a /\ T.found[i].e = b
                                 THEN {"note.falsepositive.reported"} ELSE {})       \* beyond the listed properties: a suppressed shape was reported
   ELSE IF \E i \in 1..Len(T.found) : T.found[i].ty \in x.tys /\ T.found[i].val = x.val /\ T.found[i].s = a /\ T.found[i].e = b
        THEN {} ELSE {"found:" \o T.what}
